@@ -2023,6 +2023,9 @@ class VariableDensityPoissonMaskFunc(BaseMaskFunc):
 
             if abs(actual_acceleration - acceleration) < self.tol:
                 break
+            if slope in (slope_min, slope_max):
+                # The interval cannot be bisected any further.
+                break
             if actual_acceleration < acceleration:
                 slope_min = slope
             else:
